@@ -12,8 +12,18 @@ from .core import AnalysisError, norm
 _COMPLEMENT = {ast.NotIn: ast.In, ast.IsNot: ast.Is, ast.NotEq: ast.Eq}
 
 
+class _NoWalrus(ast.NodeTransformer):
+    """(x := e) has the value of x afterwards: for comparing conditions it is x."""
+    def visit_NamedExpr(self, node):
+        return node.target
+
+
 def formula(e):
     """-> ('atom', text) | ('not', f) | ('and', [f...]) | ('or', [f...]) | ('const', bool)"""
+    if isinstance(e, ast.AST) and any(isinstance(n, ast.NamedExpr) for n in ast.walk(e)):
+        from .core import copy_ast
+
+        e = _NoWalrus().visit(copy_ast(e))
     if isinstance(e, ast.Constant) and isinstance(e.value, bool):
         return ("const", e.value)
     if isinstance(e, ast.UnaryOp) and isinstance(e.op, ast.Not):
